@@ -442,6 +442,19 @@ where
     pub fn verif_position(&self) -> &P {
         &self.position
     }
+
+    /// Re-seat the action on another handle of the position, keeping the params (see
+    /// `DecreasePosition::verif_with_position` for why).
+    pub fn verif_with_position<Q>(self, position: Q) -> IncreasePosition<Q, DECIMALS>
+    where
+        Q: PositionMut<DECIMALS, Num = P::Num, Signed = P::Signed>,
+        Q::Market: PerpMarketMut<DECIMALS, Num = P::Num, Signed = P::Signed>,
+    {
+        IncreasePosition {
+            position,
+            params: self.params,
+        }
+    }
 }
 
 /// See `get_execution_price_for_increase`.
